@@ -14,7 +14,7 @@
      cut crash l      the first k operations of l when the process dies after k of them *)
 From Coq Require Import ZArith NArith List Bool.
 Import ListNotations.
-From Verif Require Import Lib.Corr Lib.Crash_Store Lib.Crash_Block Lib.Crash_BlockFacts Lib.Crash_BlockProgs.
+From Verif Require Import Lib.Corr Lib.Crash_Store Lib.Crash_Block Lib.Crash_BlockFacts Lib.Crash_BlockProgs Lib.Crash_BlockRace.
 From Verif Require Import Gen.C28 Model.C28 Proofs.C28.
 
 (* Any sequence of uploads, deletions, deletion markings (on either bucket) and
@@ -37,9 +37,15 @@ Print Assumptions C28_every_crash_point_visible_complete.
    block keeps the mark until everything else is gone; a returned upload /
    delete / mark / replication has made the block visible / gone / marked /
    identical in the target. *)
-Theorem C28_accepted_case_satisfies_property : forall c, corr_ok c = true -> pred_ok c = true.
+Theorem C28_accepted_case_satisfies_property : forall c,
+  corr_ok c = true -> safe_case c = true -> pred_ok c = true.
 Proof. exact corr_implies_pred. Qed.
 Print Assumptions C28_accepted_case_satisfies_property.
+
+(* [safe_case]: every two-actor action (ARepDel: replication interleaved with the deletion of the
+   origin block) in the case has a deleter that removes the index before any chunk file and a
+   target that does not hold the index yet; see C28_replicate_during_delete_safe / _refuted.
+   [run_states] and [model_steps] are undefined on scenarios that violate this. *)
 
 (* ... and the model accepts its own run on every input on which it is defined. *)
 Theorem C28_model_run_is_accepted : forall U acts steps,
@@ -104,6 +110,41 @@ Theorem C28_replicate_completes : forall ph U src dst id om,
 Proof. exact replicate_completes_src. Qed.
 Print Assumptions C28_replicate_completes.
 
+(* TWO ACTORS. ensureBlockIsReplicated origin -> target while block.Delete removes the same
+   block from the origin, the deleter's operations taking effect before ANY of the replicator's
+   origin operations ([sched]: every interleaving of the two operation sequences; a Get that
+   finds its object gone makes the replicator return the error before meta.json). If the deleter
+   removes the index before any chunk file (the order of a bucket that lists files before
+   directories, like the in-memory one) and the target does not hold the index yet: at every
+   point of the replication the target satisfies the property, and a replication that returns
+   nil has made the block visible (and complete). The origin side is block.Delete
+   (C28_delete_prefix_safe). *)
+Theorem C28_replicate_during_delete_safe : forall ph U src dst id sched order dels ops ok,
+  delete_phases = Some ph -> wf_univ U -> binv U src -> binv U dst ->
+  delete_ops ph src id order = Some dels ->
+  index_first order = true -> bhas dst (id, FIndex) = false ->
+  repdel_ops src dst id (combine sched dels) = (ops, ok) ->
+  (forall k, visible_complete (bapply_ops dst (firstn k ops)))
+  /\ (ok = true -> bhas (bapply_ops dst ops) (id, FMeta) = true).
+Proof. exact replicate_during_delete_safe. Qed.
+Print Assumptions C28_replicate_during_delete_safe.
+
+(* REFUTED without "index before chunks": on a bucket that lists "chunks/" before "index" (plain
+   lexicographic order: S3, GCS, Azure) the deleter removes meta.json and chunks/000001 between
+   the replicator's Get of meta.json and its listing of chunks/; the replicator copies what is
+   left, still finds the index and uploads meta.json: the target block is visible and lacks
+   chunks/000001. Reproduced on the real code with a lexicographically listing bucket
+   (corpus/C28/replicate-while-origin-deleted-lexicographic-race.json; known finding
+   replicate-races-delete-lexicographic-listing). *)
+Theorem C28_replicate_delete_race_refuted :
+  exists st ops,
+    sinv race_U st /\ bhas (snd st) (0%N, FIndex) = false
+    /\ action_ops race_U st (ARepDel 0 [1; 1]%nat race_order) = Some (ops, true)
+    /\ visible_complete_b (bapply_ops (snd st) ops) = false
+    /\ index_first race_order = false.
+Proof. exact replicate_delete_race_refuted. Qed.
+Print Assumptions C28_replicate_delete_race_refuted.
+
 (* ---- non-vacuity: a block with three segment files, upload cut after two
    operations (concurrent order 3,1,2), retried; marked; delete cut after three
    operations, retried; a second block replicated with a crash and a retry. ---- *)
@@ -133,3 +174,18 @@ Proof.
   split; [eexists; split; [vm_compute; reflexivity|vm_compute; reflexivity]|].
   repeat split; vm_compute; reflexivity.
 Qed.
+
+(* non-vacuity of the two-actor theorem: the origin holds block 0 (two chunk files, marked); the
+   deleter (index first) removes meta.json before the replicator lists chunks/, and the index and
+   chunks/000001 before the replicator's 4th origin operation: the replicator copies both chunk
+   files, finds the index gone and stops without meta.json. *)
+Example C28_race_nonvacuous :
+  let src := [kv 0 (FChunk 1) (Blob 11); kv 0 (FChunk 2) (Blob 7); kv 0 FDelMark (Blob 40); kv 0 FIndex (Blob 9);
+              kv 0 FMeta (MetaO 0 [(FChunk 1, 11%Z); (FChunk 2, 7%Z); (FIndex, 9%Z); (FMeta, 0%Z)] 0)] in
+  let a := ARepDel 0 [1; 3; 3]%nat [FIndex; FChunk 1; FChunk 2] in
+  action_safe (src, []) a = true
+  /\ action_ops race_U (src, []) a = Some ([up 0 (FChunk 1) (Blob 11); up 0 (FChunk 2) (Blob 7)], false)
+  /\ action_ops race_U (src, []) (ARepDel 0 [6; 6]%nat [FIndex; FChunk 1; FChunk 2])
+     = Some ([up 0 (FChunk 1) (Blob 11); up 0 (FChunk 2) (Blob 7); up 0 FIndex (Blob 9);
+              up 0 FMeta (MetaO 0 [(FChunk 1, 11%Z); (FChunk 2, 7%Z); (FIndex, 9%Z); (FMeta, 0%Z)] 0)], true).
+Proof. cbv zeta. repeat split; vm_compute; reflexivity. Qed.
